@@ -30,10 +30,12 @@ def bit_of(e, flagvar="flags"):
     return None
 
 
-def mask_of(e):
-    """set of constant names in `flags & (self.A | self.B | ...)`"""
+def mask_of(e, local_defs=None):
+    """set of constant names in `flags & (self.A | self.B | ...)`; the mask may be held in a local defined once as such an or-expression"""
     if isinstance(e, ast.BinOp) and isinstance(e.op, ast.BitAnd):
         for a, b in ((e.left, e.right), (e.right, e.left)):
+            if isinstance(b, ast.Name) and local_defs and b.id in local_defs:
+                b = local_defs[b.id]
             if isinstance(a, ast.Name):
                 names = [x.attr for x in walk_no_nested(b) if isinstance(x, ast.Attribute) and isinstance(x.value, ast.Name) and x.value.id == "self" and x.attr.isupper()]
                 ors = all(isinstance(x, (ast.BinOp, ast.Attribute, ast.Name, ast.BitOr, ast.Load)) for x in walk_no_nested(b))
@@ -128,7 +130,25 @@ def run(ctx):
         for f in fns[:-1] if len(fns) > 1 else []:
             if not any(cs.kind == "super" and cs.targets and cs.targets[0].name == "_validate_flags" for cs in cg.sites_in(f)):
                 r.fail(f, f.node, "no super()._validate_flags", "%s does not chain to the base validator: base contradictions go unchecked" % f.short)
-        got, allpairs = forbidden_pairs(ctx, fns)
+        # validators split into private helpers: every helper a validator calls on self, with the flags, on every path, is part of it
+        chain = list(fns)
+        seen_h = {f.qualname for f in chain}
+        work_h = list(chain)
+        while work_h:
+            f = work_h.pop()
+            fcfg = ctx.cfg(f)
+            fprm = [a for a in f.params if a != "self"]
+            for c in q.calls(f):
+                if isinstance(c.func, ast.Attribute) and isinstance(c.func.value, ast.Name) and c.func.value.id == "self" and c.func.attr.startswith("_") \
+                        and c.args and isinstance(c.args[0], ast.Name) and c.args[0].id in fprm:
+                    nodes = fcfg.nodes_of(c)
+                    if nodes and fcfg.post_dominated_by(fcfg.entry.id, {n.id for n in nodes}):
+                        for t in cg.site_for(f, c).targets:
+                            if t.qualname not in seen_h and t.cls is not None and t.name != "_validate_flags":
+                                seen_h.add(t.qualname)
+                                chain.append(t)
+                                work_h.append(t)
+        got, allpairs = forbidden_pairs(ctx, chain)
         tables[cls.name] = got
         want = set(frozenset(x) for x in doc)
         for pr in sorted(want, key=sorted):
@@ -202,9 +222,14 @@ def run(ctx):
         masks = []
         for f in fns:
             cfg = ctx.cfg(f)
+            ldefs = {}
+            for n_ in walk_no_nested(f.node):
+                if isinstance(n_, ast.Assign) and len(n_.targets) == 1 and isinstance(n_.targets[0], ast.Name):
+                    ldefs.setdefault(n_.targets[0].id, []).append(n_.value)
+            ldefs = {k: v[0] for k, v in ldefs.items() if len(v) == 1 and k not in f.params}
             for e in cfg.nodes:
                 if e.kind == "F":
-                    m = mask_of(e.ast)
+                    m = mask_of(e.ast, ldefs)
                     if m and len(m) > 1:
                         # what is added on this edge
                         adds = set()
@@ -319,7 +344,15 @@ def run(ctx):
         else:
             r.fail(m, c, "%s pattern %s" % (site, pat), "%s accepts names by %s but %s uses %s: the same name is valid in one place and invalid in the other" % (site, pat, ref[k][0], ref[k][2]))
     # prefix stripping removes exactly one prefix
-    for strip, prefix in (("_remove_double_dash_prefix", "--"), ("_remove_dash_prefix", "-")):
+    # the strippers are found by what they do: a method that tests its parameter with startswith(<prefix>)
+    strippers = {}
+    for name_, m_ in ao.methods.items():
+        for c in q.calls(m_):
+            if isinstance(c.func, ast.Attribute) and c.func.attr in ("startswith", "removeprefix") and c.args and isinstance(c.args[0], ast.Constant) and c.args[0].value in ("--", "-") \
+                    and isinstance(c.func.value, ast.Name) and c.func.value.id in m_.params and q.returns(m_):
+                strippers.setdefault(c.args[0].value, name_)
+    ctx.require(set(strippers) == {"--", "-"}, "the dash-prefix strippers of AbstractOption were not found (methods testing startswith('--') / startswith('-'))")
+    for strip, prefix in ((strippers["--"], "--"), (strippers["-"], "-")):
         m = ao.methods.get(strip)
         if m is None:
             continue
@@ -335,13 +368,13 @@ def run(ctx):
             r.fail(m, m.node, strip + " slice", "%s does not remove exactly %d character(s) after testing for '%s'" % (strip, len(prefix), prefix))
     init = ao.methods["__init__"]
     cfg = ctx.cfg(init)
-    for strip, val in (("_remove_double_dash_prefix", "_validate_long_name"), ("_remove_dash_prefix", "_validate_short_name")):
+    for strip, val in ((strippers["--"], "_validate_long_name"), (strippers["-"], "_validate_short_name")):
         s_nodes = [cfg.node_of(c) for c in q.method_calls(init, strip)]
         v_nodes = [cfg.node_of(c) for c in q.method_calls(init, val)]
         if s_nodes and v_nodes and all(any(cfg.dominates(s.id, v.id) for s in s_nodes) for v in v_nodes):
             r.ok("AbstractOption.__init__: %s before %s" % (strip, val))
         else:
-            r.fail(init, init.node, "%s before %s" % (strip, val), "names are validated before their dash prefix is stripped")
+            r.fail(init, init.node, "prefix stripping before %s" % val, "names are validated before their dash prefix is stripped")
 
     # ---------------------------------------------------------------- R7
     r = ctx.rule("C07-R7", "TABLE", "the boolean literal sets contain the text forms of True and False", reference=2)
@@ -380,6 +413,11 @@ def run(ctx):
             f = c.func
             if isinstance(f, ast.Attribute) and isinstance(f.value, ast.Name) and f.value.id == "self":
                 out.add(f.attr)
+                # what that method in turn always calls on self (a validator split into helpers)
+                if depth < 4:
+                    for t in cg.site_for(init, c).targets:
+                        if t.cls is not None and t.name != "__init__":
+                            out |= must_calls(t.cls, t, depth + 1)
             elif isinstance(f, ast.Attribute) and f.attr == "__init__" and isinstance(f.value, ast.Call) and isinstance(f.value.func, ast.Name) and f.value.func.id == "super" and depth < 4:
                 for t in cg.site_for(init, c).targets:
                     if t.name == "__init__" and t.cls is not None:
